@@ -614,13 +614,20 @@ func streamC01(c *Ctx) {
 	someInputs := []any{1, "x", []any{2}}
 
 	// (a)
-	exh := exhaustive(r.Fork(), c.Tier)
+	exh := exhaustive(r.Fork(), "quick")
 	for i, src := range exh {
 		if quick {
-			// every program on 3 of the 12 inputs (rotating, so all inputs are used evenly)
-			runOn(src, "exh", []any{u12[i%12], u12[(i*5+3)%12], u12[(i*7+8)%12]}, someInputs)
+			// every program on 2 of the 12 inputs (rotating, so all inputs are used evenly)
+			runOn(src, "exh", []any{u12[i%12], u12[(i*5+3)%12]}, someInputs)
 		} else {
 			runOn(src, "exh", u12, someInputs)
+		}
+	}
+	if !quick {
+		// size-4 programs (unary of unary, binary with a unary operand), 3 inputs each
+		ext4 := exhaustive(r.Fork(), c.Tier)[len(exh):]
+		for i, src := range ext4 {
+			runOn(src, "exh4", []any{u12[i%12], u12[(i*5+3)%12], u12[(i*7+8)%12]}, someInputs)
 		}
 	}
 	// (c) + (d)
